@@ -29,6 +29,9 @@ func init() {
 
 func runC18(w *World, r *Report) {
 	// ---- return-directly: the FIRST matching call of the message is the one returned
+	r.Rule("C18.tools-on-callers-context", "the tools of a step run on the context of the agent call, not on one cancelled when the tools node returns its readers: a streaming tool delivers under Stream what it delivers under Generate (shared with C17.parallel-protocol)", 3)
+	toolsCallerCtxCheck(w, r, "C18.tools-on-callers-context")
+
 	r.Rule("C18.return-directly-first", "getReturnDirectlyToolCallID returns the id of the first tool call that is in the return-directly set (return from inside the scan, no loop-carried 'last match')", 1)
 	{
 		f := w.Fn("flow/agent/react", "getReturnDirectlyToolCallID")
